@@ -326,7 +326,7 @@ def fixed_cases():
 
 
 def correspond(run):
-    n = 300 if run.tier == "quick" else 6000
+    n = 900 if run.tier == "quick" else 6000
     cases = common.load_corpus(PROP) + fixed_cases() + gen_all(run.rng, n)
     bad = run_cases(run, cases, "impl")
     run.coverage["traces_validated_against_impl"] = run.coverage["evaluations"]
